@@ -262,6 +262,10 @@ impl Engine for C13 {
         let mut fs_fault_seen_before = false;
         let mut after_kill_dates: Vec<Date> = vec![];
         let mut last_now: Option<i64> = None;
+        // years whose persisted copy a disturbed or killed run was rewriting: what the harness reads
+        // in the file is not necessarily what a (verifying) reader accepts, until an undisturbed run
+        // downloads the year again
+        let mut suspect_years: BTreeSet<i32> = BTreeSet::new();
         if sc.clock_tz.is_some() {
             st.bump("probe.history_with_today_from_the_system_clock");
         }
@@ -288,6 +292,7 @@ impl Engine for C13 {
                 st.bump("probe.run_after_a_kill_asks_for_the_last_surviving_dates");
             }
             let persisted = persisted_dates(&sc.cache, &mem);
+            let suspect_at_start = suspect_years.clone();
             if let Some((pday, ppt)) = prev_today {
                 st.add("sim.days", (today - pday).whole_days().max(0) as u64);
                 if pday.year() != today.year() {
@@ -632,7 +637,15 @@ impl Engine for C13 {
                         downloaded_on.insert(rq.year, (today, pt));
                     }
                 }
+                for rq in &obs.requests {
+                    if rq.ok {
+                        suspect_years.remove(&rq.year);
+                    }
+                }
             } else {
+                for rq in &obs.requests {
+                    suspect_years.insert(rq.year);
+                }
                 // A disturbed or killed run may legitimately have destroyed what an earlier run left for
                 // the years it was rewriting (an implementation that writes in place and verifies a
                 // checksum on reading is correct too): those years are no longer known to be covered.
@@ -648,7 +661,7 @@ impl Engine for C13 {
                     *ok_by_year.entry(rq.year).or_insert(0) += 1;
                 }
                 let read_fault = obs.proc.fs_faults_fired.contains_key("open_read_error") || obs.proc.fs_faults_fired.contains_key("read_error");
-                if !run.force && rq.url_ok && touched_years.contains(&rq.year) && !needed_years.contains(&rq.year) && !read_fault {
+                if !run.force && rq.url_ok && touched_years.contains(&rq.year) && !needed_years.contains(&rq.year) && !read_fault && !suspect_at_start.contains(&rq.year) {
                     push(Violation { kind: "unneeded_download".into(), signature: "download although the cached year covers every requested date".into(), detail: format!("run {} (today {}, not forced): request for {} although every date the look-ups {:?} need in that year was in the cache at the start of the run", ri, today, rq.year, shown) }, &mut violations);
                 }
             }
@@ -831,9 +844,9 @@ impl Engine for C13 {
     }
     fn required_probes(&self, _tier: Tier) -> Vec<&'static str> {
         vec![
-            "probe.miss_in_year_first_loaded_from_cache",
+            // (probes that depend on how the implementation lays out its cache - a miss in a year first
+            // loaded from the cache, a look-back into a year cached by an earlier run - are reported, not required)
             "probe.today_unpublished_then_published_in_later_run",
-            "probe.lookback_into_year_cached_by_earlier_run",
             "probe.forced_run",
             "probe.year_rollover_between_runs",
             "probe.run_served_entirely_from_cache",
